@@ -622,6 +622,23 @@ class C23(Property):
                             'lower_is_array': isinstance(m['lower'], np.ndarray),
                             'upper_is_array': isinstance(m['upper'], np.ndarray)})
                     g1 = self.make_gen(case, fname)
+                    if case['gen'] != 'Csv' and len(case['dvs']) % 2 == 1 or case.get('reuse'):
+                        # the same generator instance used before for another set of design
+                        # variables (other sizes): nothing of that call may survive into the next
+                        alt = {}
+                        for name, m in dvmeta.items():
+                            size = int(m['size']) + 1
+                            alt[name + '_other'] = dict(
+                                m, size=size, global_size=size,
+                                lower=np.resize(np.asarray(m['lower'], dtype=float), size),
+                                upper=np.resize(np.asarray(m['upper'], dtype=float), size))
+                        try:
+                            n_before = len(cap.calls)
+                            list(g1(alt, p.model))
+                            del cap.calls[n_before:]
+                            res['reused_instance'] = True
+                        except Exception as e:
+                            res['reuse_error'] = type(e).__name__
                     stage = 'generate'
                     out1, calls1 = call(g1, dvmeta, p.model)
                     g2 = self.make_gen(case, fname)
@@ -778,6 +795,9 @@ class C23(Property):
                     return {'what': '%s yields %d cases for a design of %d runs' % (
                         gen, len(qrows), len(impl['design']))}
                 for k, (coded, q) in enumerate(zip(impl['design'], qrows)):
+                    if len(coded) != len(sets):
+                        return {'what': '%s design has %d factors for %d design-variable entries' % (
+                            gen, len(coded), len(sets)), 'case': k}
                     for j, cd in enumerate(coded):
                         ci = int(unrat(cd))
                         li = (0 if ci < 0 else 1) if shift is None else ci + shift
